@@ -18,8 +18,10 @@ Abstract document (plain picklable literals)::
     O     = {"k": "outline",  ... as S ..., "examples": [{"tags": [..], "name": str, "table": TABLE | None}]}
     R     = {"k": "rule", "tags": [..], "name": str, "desc": [str], "bg": BG | None, "items": [S | O]}
     STEP  = (kind, name, arg)     kind in given/when/then/and/but/star
-    arg   = None | ("text", quotes, [content lines][, close]) | ("table", [heading cells], [[row cells], ..])
-            (close: column of the closing quotes relative to the opening ones: 0, +n, -n or "col0")
+    arg   = None | ("text", quotes, [content lines][, close[, shift]]) | ("table", [heading cells], [[row cells], ..])
+            | ("both", "text" | "table" (which comes first), text arg, table arg)
+            (close: column of the closing quotes relative to the opening ones: 0, +n, -n or "col0";
+             shift: indentation of the whole doc-string relative to where a table would stand: 0, +n, -n)
             (cells are written raw, e.g. "x\\|y"; the expected cell is the unescaped, stripped text)
 
 Layout (all optional)::
@@ -209,29 +211,44 @@ def _steps(out, level, steps, ctx, owner):
         e = {"kind": "step", "keyword": alias.rstrip(), "name": name.strip(), "line": n, "text": None, "table": None,
              "type": sorted(types)[0] if len(types) == 1 else AnyOf(sorted(types)),
              "_akind": kind, "_alias": alias}
-        if arg is not None and arg[0] == "text":
-            quotes, content = arg[1], arg[2]
-            close = arg[3] if len(arg) > 3 else 0
-            ln = out.emit(level + 1, quotes, "doc_open", (owner, i))
-            out._in_doc = True
-            for c in content:
-                out.emit(level + 1, c, "doc_line")
-            # the closing delimiter may stand at any column: same as the opening one (0), deeper (+n blanks),
-            # shallower (-n characters of the indentation) or at column 0 ("col0")
-            prefix = out.unit * (level + 1)
-            if close == "col0":
-                prefix = u""
-            elif close > 0:
-                prefix += u" " * close
-            elif close < 0:
-                prefix = prefix[:max(0, len(prefix) + close)]
-            out.emit(level + 1, prefix + quotes, "doc_close", raw=True)
-            out._in_doc = False
-            e["text"] = {"kind": "text", "value": u"\n".join(content), "line": ln, "ctype": u"text/plain"}
-        elif arg is not None and arg[0] == "table":
-            e["table"] = _table(out, level + 1, (arg[1], arg[2]), ("step", owner))
+        if arg is not None and arg[0] == "both":
+            # a step that carries a doc-string AND a table, in either order
+            for part in ((arg[2], arg[3]) if arg[1] == "text" else (arg[3], arg[2])):
+                _step_arg(out, level, e, owner, i, part)
+        elif arg is not None:
+            _step_arg(out, level, e, owner, i, arg)
         exp.append(e)
     return exp
+
+
+def _step_arg(out, level, e, owner, i, arg):
+    if arg[0] == "table":
+        e["table"] = _table(out, level + 1, (arg[1], arg[2]), ("step", owner))
+        return
+    quotes, content = arg[1], arg[2]
+    close = arg[3] if len(arg) > 3 else 0
+    shift = arg[4] if len(arg) > 4 else 0
+    # the whole doc-string may be indented deeper (+n blanks) or shallower (-n characters) than a table would be
+    prefix = out.unit * (level + 1)
+    if shift > 0:
+        prefix += u" " * shift
+    elif shift < 0:
+        prefix = prefix[:max(0, len(prefix) + shift)]
+    ln = out.emit(0, prefix + quotes, "doc_open", (owner, i), raw=True)
+    out._in_doc = True
+    for c in content:
+        out.emit(0, (prefix + c) if c != u"" else u"", "doc_line", raw=True)
+    # the closing delimiter may stand at any column: same as the opening one (0), deeper (+n blanks),
+    # shallower (-n characters of the indentation) or at column 0 ("col0")
+    if close == "col0":
+        prefix = u""
+    elif close > 0:
+        prefix += u" " * close
+    elif close < 0:
+        prefix = prefix[:max(0, len(prefix) + close)]
+    out.emit(0, prefix + quotes, "doc_close", raw=True)
+    out._in_doc = False
+    e["text"] = {"kind": "text", "value": u"\n".join(content), "line": ln, "ctype": u"text/plain"}
 
 
 def _last_types(steps_exp):
@@ -564,6 +581,12 @@ def step_args():
             out.append(("text", q2, list(c)))
     for h, rows in TABLES:
         out.append(("table", list(h), [list(r) for r in rows]))
+    # a step may carry both (behave keeps .text and .table): table then doc-string, doc-string then table
+    t1 = ("table", list(TABLES[1][0]), [list(r) for r in TABLES[1][1]])
+    t2 = ("table", list(TABLES[0][0]), [list(r) for r in TABLES[0][1]])
+    out.append(("both", "table", ("text", u'"' * 3, list(DOC_CONTENTS[1])), t1))
+    out.append(("both", "text", ("text", u"'" * 3, list(DOC_CONTENTS[0])), t2))
+    out.append(("both", "table", ("text", u"'" * 3, [], 0, 2), t2))
     return out
 
 
